@@ -151,8 +151,10 @@ func (fq *fanOutQueue) StopConsumerGroup(name string) {
 
 // SetAppendedSeq sets appended sequence underlying queue, then set consumed/acknowledged sequence for each ConsumerGroup.
 func (fq *fanOutQueue) SetAppendedSeq(seq int64) {
-	fq.lock4map.RLock()
-	defer fq.lock4map.RUnlock()
+	// NOTE: need write lock, reset sequence of queue/consumer groups cannot run with Sync(read lock) at the same time,
+	// else Sync sets the acknowledged sequence which is calculated before reset, after reset.
+	fq.lock4map.Lock()
+	defer fq.lock4map.Unlock()
 
 	fq.queue.SetAppendedSeq(seq)
 
